@@ -47,6 +47,14 @@ def make_cabs(rng, tier):
                          dict(name=b"b.bin", length=len(whole) - cut, offset=cut, folder=0)]
                 cab, layout = minicab.build([(comp, payloads)], files, data_res=res)
                 out.append((f"s{si}c{comp}r{res}", cab, layout, members))
+                if len(blocks) > 1 and res == 0:
+                    # one member per block: a failure in block k must not let member k+1 through with wrong bytes
+                    members = []; files = []; o = 0
+                    for k, d in enumerate(datas):
+                        members.append((b"m%d.bin" % k, d))
+                        files.append(dict(name=b"m%d.bin" % k, length=len(d), offset=o, folder=0)); o += len(d)
+                    cab, layout = minicab.build([(comp, payloads)], files, data_res=res)
+                    out.append((f"s{si}c{comp}aligned", cab, layout, members))
     return out
 
 def generate(ctx):
@@ -63,7 +71,7 @@ def generate(ctx):
     # --- cab.corrupt
     for (name, cab, layout, members) in make_cabs(rng, ctx.tier):
         exp = [digest(m[1]) for m in members]
-        base = ["new cab", "open i0 x.cab", "extract i0 h0 0 o0", "extract i0 h0 1 o1", "close i0 h0", "destroy i0"]
+        base = ["new cab", "open i0 x.cab"] + [f"extract i0 h0 {k} o{k}" for k in range(len(members))] + ["close i0 h0", "destroy i0"]
         yield [f"file x.cab {cab.hex()}"] + base, dict(family="cab.corrupt", variant="original", cab=name, expect=exp, altered=False)
         res = layout["data_res"]
         for bi, (off, plen) in enumerate(layout["blocks"][0]):
